@@ -243,9 +243,9 @@ static void check_case(vg::Src& s, vh::Ctx& c)
     o.valid_only = true;
     o.max_side = c.arg > 0 ? static_cast<size_t>(c.arg) : 10;
     o.profile_max = 30;
-    // ~3 % of the grids get a side of up to 160 (thorough: 400) nodes: index arithmetic that is
+    // ~3 % of the grids get a side of up to 160 (thorough: 260) nodes: index arithmetic that is
     // exact on small grids need not be on large ones (seeded change C07-E: 49 columns and more)
-    o.large_side = o.max_side > 12 ? 400 : 160;
+    o.large_side = o.max_side > 12 ? 260 : 160;
     va::GridSpec sp;
     if (s.n > 0 && s.d[0] == 0xEE)
     {
